@@ -144,7 +144,8 @@ Fixpoint parse_set_options (opts : list frame) (o : set_options) : option set_op
             | [] => None
             | a :: rest' =>
                 match x_int parse_u64 a with
-                | Some n => parse_set_options rest'
+                | Some n => if n =? 0 then None              (* 48bcb4d: the expire time must be positive *)
+                            else parse_set_options rest'
                               {| o_nx := o_nx o; o_xx := o_xx o; o_get := o_get o; o_exp := Some (n * 1000); o_keepttl := o_keepttl o |}
                 | None => None
                 end
@@ -154,7 +155,8 @@ Fixpoint parse_set_options (opts : list frame) (o : set_options) : option set_op
             | [] => None
             | a :: rest' =>
                 match x_int parse_u64 a with
-                | Some n => parse_set_options rest'
+                | Some n => if n =? 0 then None
+                            else parse_set_options rest'
                               {| o_nx := o_nx o; o_xx := o_xx o; o_get := o_get o; o_exp := Some n; o_keepttl := o_keepttl o |}
                 | None => None
                 end
@@ -455,7 +457,8 @@ Definition eng_setrange (d : db) (k : bytes) (off : Z) (v : bytes) : frame * db 
                            (r_int (len nb), put_entry d k {| e_val := VStr nb; e_exp := e_exp en |})
                | _ => (r_wrongtype, d)
                end
-  | None => let nb := zeros off ++ v in
+  | None => if len v =? 0 then (r_int 0, d)        (* 1a8fa0e *)
+            else let nb := zeros off ++ v in
             (r_int (len nb), put_entry d k {| e_val := VStr nb; e_exp := None |})
   end.
 Fixpoint x_del_loop (d : db) (ks : list bytes) (n : Z) : Z * db :=
